@@ -53,6 +53,24 @@ class C02(Prop):
                     g.op_delete(b)
             for be in storelib.BACKENDS:
                 out.append(("quiet-history", {"backend": be, "ops": g.ops, "quiet": True}))
+        # the client looked at the newest event some time ago (limit-1 read), then newer events arrived in bulk, then it
+        # rewrites "the last" event without looking again: the newest one must be rewritten
+        for i in range(ctx.pick(30, 400)):
+            b = rng.choice(["b0", "b1"])
+            T = storegen.T0
+            ops = [["create", "b0", storegen.mk_meta(rng, "b0")], ["create", "b1", storegen.mk_meta(rng, "b1")]]
+            for k in range(rng.randint(1, 3)):
+                ops.append(["insert", b, [None, T + k * 10**6, 10**6, storegen.LABELS[k % 2]]])
+            ops.append(["get", b, 1, None, None])
+            newer = [[None, T + (10 + k) * 10**6, rng.choice([0, 10**6]), storegen.LABELS[k % 2]] for k in range(rng.randint(1, 3))]
+            ops.append(rng.choice([["bulk", b, newer], ["bulk", b, newer], ["insert", b, newer[0]]]))
+            if rng.random() < 0.3:
+                ops.append(["get", b, 1, None, None])
+                ops.append(["bulk", b, [[None, T + 30 * 10**6, 0, storegen.LABELS[0]]]])
+            ops.append(["replacelast", b, [None, T + 40 * 10**6, 10**6, storegen.LABELS[1]], "blind"])
+            ops.append(["get", b, -1, None, None])
+            for be in storelib.BACKENDS:
+                out.append(("stale-last", {"backend": be, "ops": ops}))
         # bulk inserts larger than any internal batch size (100, 500, ...), with sizes just around the multiples
         for n in (99, 100, 101, 150, 199, 200, 201, 250, 501) if ctx.quick else (99, 100, 101, 102, 150, 199, 200, 201, 250, 499, 500, 501, 999, 1001):
             evs = [[None, storegen.T0 + k * 1000, 1000, storegen.LABELS[k % 2]] for k in range(n)]
